@@ -368,9 +368,21 @@ class Program:
             return r
         return self.resolve_name(fi.mod, name)
 
-    def type_of(self, expr, fi, env=None):
+    def type_of(self, expr, fi, env=None, _depth=0):
         """Class name of an expression's value, or None.  Deliberately small."""
         env = env or {}
+        if _depth > 6:
+            return None
+        busy = self.__dict__.setdefault("_typing_busy", set())
+        if id(expr) in busy:
+            return None
+        busy.add(id(expr))
+        try:
+            return self._type_of(expr, fi, env, _depth)
+        finally:
+            busy.discard(id(expr))
+
+    def _type_of(self, expr, fi, env, _depth):
         if isinstance(expr, ast.Name):
             if expr.id in env:
                 return env[expr.id]
@@ -385,6 +397,10 @@ class Program:
                 ann = f.annotations.get(expr.id)
                 if ann:
                     return ann.strip("'\"")
+                if expr.id in f.params and not f.annotations.get(expr.id):
+                    t = self._param_type_from_callers(f, expr.id)
+                    if t:
+                        return t
                 f = f.outer
             # single constructor assignment in the function
             assigns = [
@@ -393,13 +409,13 @@ class Program:
                 if isinstance(n, ast.Assign) and len(n.targets) == 1 and isinstance(n.targets[0], ast.Name) and n.targets[0].id == expr.id
             ]
             if len(assigns) == 1:
-                return self.type_of(assigns[0].value, fi, env)
+                return self.type_of(assigns[0].value, fi, env, _depth + 1)
             r = self.lookup(fi, expr.id)
             if isinstance(r, ClassInfo):
                 return "type:" + r.name
             return None
         if isinstance(expr, ast.Attribute):
-            t = self.type_of(expr.value, fi, env)
+            t = self.type_of(expr.value, fi, env, _depth + 1)
             if t and (t, expr.attr) in ATTR_TYPES:
                 return ATTR_TYPES[(t, expr.attr)]
             return None
@@ -415,13 +431,50 @@ class Program:
                     return src(callee.node.returns).strip("'\"")
             return None
         if isinstance(expr, ast.Subscript):
-            t = self.type_of(expr.value, fi, env)
+            t = self.type_of(expr.value, fi, env, _depth + 1)
             if t == "Datastore":
                 return "Bucket"
             if t and t.startswith("dict[") and t.endswith("]"):
                 return t[5:-1]
             return None
         return None
+
+    def _name_call_index(self):
+        """callee FuncInfo -> [(caller, call)] for direct `name(...)` calls (cheap, no receiver typing needed)"""
+        idx = self.__dict__.get("_name_calls")
+        if idx is None:
+            idx = {}
+            for caller in self.funcs.values():
+                for c in self.all_calls(caller):
+                    if isinstance(c.func, ast.Name):
+                        r = self.lookup(caller, c.func.id)
+                        if isinstance(r, FuncInfo):
+                            idx.setdefault(r.qname, []).append((caller, c))
+            self._name_calls = idx
+        return idx
+
+    def _param_type_from_callers(self, f, pname):
+        """type of an un-annotated parameter, when every direct caller passes the same class"""
+        sites = self._name_call_index().get(f.qname, [])
+        if not sites:
+            return None
+        pos = f.params.index(pname)
+        types = set()
+        for caller, c in sites:
+            a = None
+            if pos < len(c.args):
+                a = c.args[pos]
+            else:
+                for k in c.keywords:
+                    if k.arg == pname:
+                        a = k.value
+            if a is None:
+                return None
+            t = self.type_of(a, caller)
+            if t is None:
+                return None
+            types.add(t)
+        return types.pop() if len(types) == 1 else None
 
     def concrete_classes(self, tname):
         """Receiver class name -> list of ClassInfo it may dispatch to."""
